@@ -78,7 +78,8 @@ def truth(v):
 	if isinstance(v, SObj):
 		return v.term != v.T.none
 	if isinstance(v, SOpt):
-		raise Unsupported('truthiness of an optional scalar')
+		inner = v.value()
+		return z3.And(z3.Not(v.is_none()), bool_term(truth(inner)))   # None is falsy, so is 0 / 0.0 / ""
 	if isinstance(v, SV):
 		raise Unsupported(f'truthiness of {v!r}')
 	if z3.is_expr(v):
